@@ -26,7 +26,7 @@ CONFIG_ATTRS = ['grouper', 'finder', 'localbkg_estimator', 'fitter', 'fit_shape'
                 'xy_bounds', 'fitter_maxiters', 'progress_bar']
 
 
-def _scene(rng, fwhm, shape, faint_companions=False):
+def _scene(rng, fwhm, shape, faint_companions=False, edge_xy=None):
     from photutils.psf import CircularGaussianPRF
     ny, nx = shape
     yy, xx = np.mgrid[0:ny, 0:nx]
@@ -42,6 +42,8 @@ def _scene(rng, fwhm, shape, faint_companions=False):
         else:
             x, y = float(rng.uniform(4, nx - 5)), float(rng.uniform(4, ny - 5))
         pos.append((x, y))
+    if edge_xy is not None:
+        pos[0] = (float(np.clip(edge_xy[0], 0.5, nx - 1.5)), float(np.clip(edge_xy[1], 0.5, ny - 1.5)))
     flux = rng.uniform(300, 3000, nstar)
     hidden = []
     if faint_companions:
@@ -65,7 +67,7 @@ def gen_factory(rng, variant, mag=1.0):
     (every component newly constructed) from the same recorded choices."""
     fwhm = float(np.round(rng.uniform(2.0, 3.5), 2))
     mk = int(rng.integers(0, 4)) if rng.random() < 0.8 else int(rng.integers(4, 6))      # model kind
-    fit_shape = [(5, 5), 5, (7, 7), (5, 7)][int(rng.integers(0, 4))]
+    fit_shape = [(5, 5), 5, (7, 7), (5, 7), (7, 5), (3, 9)][int(rng.integers(0, 6))]
     use_grouper = variant in ('grouped',) or (variant in ('finder', 'iterative') and rng.random() < 0.6)
     min_sep = float(np.round(rng.uniform(3.0, 8.0), 1))
     use_finder = variant in ('finder', 'iterative') or (variant == 'grouped' and rng.random() < 0.3)
@@ -76,7 +78,8 @@ def gen_factory(rng, variant, mag=1.0):
     fk = int(rng.integers(0, 5))       # fitter kind; 0,1 = default argument (shared singleton)
     mode = 'new' if (not use_grouper or rng.random() < 0.5) else 'all'
     maxiters = int(rng.integers(2, 4)) if rng.random() < 0.65 else 1
-    sub_shape = [None, (7, 7), 9][int(rng.integers(0, 3))]
+    sub_shape = [None, (7, 7), 9, (9, 5), (5, 11)][int(rng.integers(0, 5))]
+    model_history = bool(rng.random() < 0.3)
 
     def make():
         from astropy.modeling.fitting import LevMarLSQFitter, LMLSQFitter, TRFLSQFitter
@@ -109,6 +112,10 @@ def gen_factory(rng, variant, mag=1.0):
                 model = GriddedPSFModel(NDData(np.array(psfs), meta={'grid_xypos': grid, 'oversampling': over}))
             else:
                 model = ImagePSF(psfs[0], oversampling=over)
+        if model_history:
+            # a model that was evaluated and copied before it is handed in
+            model(np.arange(5.0), np.arange(5.0))
+            model = model.copy()
         kw = dict(grouper=SourceGrouper(min_sep) if use_grouper else None,
                   finder=DAOStarFinder(thr * mag, fwhm) if use_finder else None,
                   localbkg_estimator=LocalBackground(5, 9, MedianBackground()) if use_lbkg else None,
@@ -170,6 +177,9 @@ def gen_call(case, scenes, use_finder, allow_units, mag=1.0):
             pos[0] = (-60.0, -40.0)
         if degenerate == 'integer_positions':
             pos = np.round(pos).astype(int)
+        elif rng.random() < 0.15:
+            pos = np.floor(pos) + 0.5                     # exact half-integers (pixel corners)
+            case.note('axis2_halfint_psf_init')
         init = (QTable if rng.random() < 0.7 else Table)()
         if rng.random() < 0.2:
             init['id'] = np.arange(len(pos)) + 1
@@ -196,10 +206,16 @@ def gen_call(case, scenes, use_finder, allow_units, mag=1.0):
         if rng.random() < 0.05:
             init.remove_column(xn)            # documented ValueError
             cols.remove(xn)
+        if len(init) > 0 and rng.random() < 0.2:
+            # provenance: the table handed in is a slice of a larger table
+            from astropy.table import vstack as _vstack
+            bigt = _vstack([init, init[:1]])
+            init = bigt[:len(init)]
+            case.note('axis2_provenance_psf_init:slice_of_larger_table')
     data = sc['data']
     error = mask = None
     if rng.random() < 0.3:
-        error = np.sqrt(np.abs(data / mag) + 1.0) * mag
+        error = np.sqrt(np.abs(np.asarray(data, dtype=float) / mag) + 1.0) * mag
     if rng.random() < 0.3:
         mask = rng.random(data.shape) < 0.03
     if use_init and call.get('degenerate') == 'source_fully_masked':
@@ -320,16 +336,26 @@ def run(case, variant):
     make, desc, fwhm, use_finder, use_grouper = gen_factory(rng, variant, mag)
     desc['magnitude'] = mag
     nscene = int(rng.integers(2, 4))
-    scenes = [_scene(rng, fwhm, AX.image_shape(case, 32, 49, 'shape_psf'), faint_companions=iterative)
-              for _ in range(nscene)]
+    scenes = []
+    for _ in range(nscene):
+        shp = AX.image_shape(case, 32, 49, 'shape_psf')
+        exy = AX.edge_position(case, 'psf', shp, margin=6.0, reach=2.0)[:2] if rng.random() < 0.5 else None
+        scenes.append(_scene(rng, fwhm, shp, faint_companions=iterative, edge_xy=exy))
+    dk = AX.dtype_kind(case, 'psf_data', p_plain=0.7, allow=('float32', 'uint16', 'int16_limit', 'float16', 'uint32_big'))
+    mkind = AX.mask_kind(case, 'psf')
     for sc_ in scenes:
         sc_['data'] = sc_['data'] * mag
         sc_['flux'] = sc_['flux'] * mag
         sc_['bkg'] = sc_['bkg'] * mag
+        if dk.kind != 'float64' and not use_finder:
+            sc_['data'] = dk(sc_['data'], mag)
     ncalls = int(rng.integers(2, 6)) if not iterative else int(rng.integers(2, 4))
     calls = [gen_call(case, scenes, use_finder, allow_units=not use_finder, mag=mag) for _ in range(ncalls)]
-    for _, a_ in calls:
+    for c_, a_ in calls:
         a_['lay'] = lay
+        if mkind.kind == 'all_false' and a_['mask'] is None:
+            a_['mask'] = np.zeros(a_['data'].shape, bool)
+            c_['mask'] = 'all_false'
     calllog = []
     case.params = dict(desc, calls=calllog, nstars=[len(s['pos']) for s in scenes])
     case.digest = core.arr_digest(*[s['data'] for s in scenes]) + core.digest([desc, [c for c, _ in calls]])
